@@ -426,3 +426,20 @@ def extends_node_contract(prop, sfx, failing_callees=False):
 
 for _sfx in ("", "_async"):
     extends_node_contract("C18", _sfx)
+
+
+# ---- clauses carried by other properties' checks, instantiated for C18 as well:
+# ---- "circular extends raises TemplateInheritanceError" and nothing else does: the name tested
+# ---- against `seen` is the name recorded is the name loaded (C09's structural obligation) ...
+from contracts.C09 import extends_cycle_guard as _c09_cycle_guard  # noqa: E402
+
+structural("C18", "extends-cycle-guard")(_c09_cycle_guard)
+
+# ---- ... and block stacks belong to ONE chain: an isolated copy (render / call) shares no tag
+# ---- namespace with its caller, so a partial that has blocks of its own resolves them in its own
+# ---- chain (C15's isolation contract on copy(), which checks that nothing of the caller's
+# ---- tag namespace is reachable from the copy)
+from contracts.C15 import _copy_isolated as _c15_copy_isolated  # noqa: E402
+
+for _origin in ("root", "partial-in-block"):
+    contract(CTX + ".copy", prop="C18", name=f"copy[isolated copy shares no block stacks with its caller, caller={_origin}]")(lambda c, o=_origin: _c15_copy_isolated(c, o))
